@@ -137,7 +137,75 @@ func classify(srv *ogServer, ps *plannedSet, q *query, kind string, got, want *r
 	if len(applicable) > 1 && explains(applicable) {
 		return applicable[0].class
 	}
+	if got.err == "" && len(got.series) == 0 && dupSignatureOverRange(ps, q, applicable) {
+		return "binop-duplicate-check-per-series"
+	}
 	return "unexplained:" + kind
+}
+
+// dupSignatureOverRange: the trigger of the finding binop-duplicate-check-per-series. BinOpTransform
+// buffers one operand whole and rejects two distinct series with the same matching signature
+// wherever their samples lie in the range (Prometheus checks per step, and for the many side
+// only among kept elements); the error is swallowed into an empty success. The operands are
+// evaluated on the reference engine over the query's range - as written and under the defect
+// models of the matcher findings, which let extra series through.
+func dupSignatureOverRange(ps *plannedSet, q *query, models []rewriter) bool {
+	found := false
+	check := func(e expr) {
+		e.walk(func(x expr) {
+			b, ok := x.(*binExpr)
+			if !ok || found || isScalar(b.l) || isScalar(b.r) {
+				return
+			}
+			for _, side := range []expr{b.l, b.r} {
+				q2 := *q
+				q2.e = side
+				q2.text = side.text()
+				r := ps.up.query(&q2)
+				if r.err != "" {
+					continue
+				}
+				seen := map[string]bool{}
+				for _, sr := range r.series {
+					var sig []label
+					for _, l := range sr.labels {
+						in := false
+						for _, n := range b.labels {
+							if n == l.name {
+								in = true
+							}
+						}
+						switch b.match {
+						case "on":
+							if in {
+								sig = append(sig, l)
+							}
+						default:
+							if !in && l.name != "__name__" {
+								sig = append(sig, l)
+							}
+						}
+					}
+					k := labelsKey(sig)
+					if seen[k] {
+						found = true
+					}
+					seen[k] = true
+				}
+			}
+		})
+	}
+	check(q.e)
+	if !found && len(models) > 0 {
+		e2 := q.e
+		for _, rw := range models {
+			if e3, ok := rw.apply(e2); ok {
+				e2 = e3
+			}
+		}
+		check(e2)
+	}
+	return found
 }
 
 // The defect models of the findings that could not be repaired in /repo (golden tests of
